@@ -111,6 +111,15 @@ CLAIMED["C11"] = (
     "Trusted: Lean kernel + propext/Classical.choice/Quot.sound; harness/c11.py (generators, adapter, canonicalisers, oracle; classification of a corrupted file); json, UTF-8 codec, file system and cp as parameters; CPython text I/O tied by the write/read stream only; content that is not valid Unicode is out of scope.",
     "DESIGN.md §6 C11")
 
+CLAIMED["C07"] = (
+    "Lean 4 model of the filter registry as a state machine over an arbitrary acyclic component graph and of the allow-list content filter as a scan over the reversed file; history invariant 'every cache entry equals the recomputed value'; reachability characterisation of get_filters for every set-iteration order; positional decomposition of the bottom-up scan; correspondence over real registries, real grep and all four content paths",
+    "Proof (29 theorems, all worlds / histories / contents): after ANY interleaving of add_filter / get_filters (failed calls included) the look-up equals the union of the registration log over the components reachable per the code's gate (get_is_union; the old invalidation is refuted by stale_old_witness); "
+    "registrations through a parser or combiner land on exactly the filterable first datasources; budgets handed out are positive; filtered content is a List.Sublist, kept lines match, the last match per filter is kept at its position, a matching line is dropped only after at least its budget of matching lines is kept below it; "
+    "any pre-filter keeping at least the matching lines is transparent, so grep + the cleaner's allow-list = the post-filter on load (host_equals_archive); no filters on a host => NoFilterException, and a refusal happens only then. "
+    "Tied: registry histories on fresh real components compared after every operation; 2500 files x 6-7 real code paths (real grep through a HostContext-rooted provider, archive load, Cleaner.clean_content, apply_filters, filter_content, command pipeline); 8000 direct allow-list calls.",
+    "Trusted: Lean kernel + propext/Classical.choice/Quot.sound; grep -F -e keeps exactly the lines containing some pattern (checked against /usr/bin/grep on every generated file); lines <= MAX_LINE_LENGTH; the component graph is fixed during a history; FILTERS key order compared sorted (theorems quantify over every order); acyclicity certificate rankedBy checked by the driver; harness/c07.py.",
+    "DESIGN.md §6 C07")
+
 PENDING_REASON = "check not built yet in this round (planned: DESIGN.md §6); no claim is made until its model, theorems and correspondence run exist"
 
 
